@@ -1099,7 +1099,19 @@ func (g *G) boolExpr(sc *scope, depth int) string {
 		}
 		return g.litOf(TBool, true)
 	}
-	switch g.pick("boolexpr", 11) {
+	switch g.pick("boolexpr", 12) {
+	case 11: // comparison of two NARROWING conversions whose operands agree below the target width
+		// and differ above it (truncation preserves neither equality nor order; seeded change C01-28)
+		if l := g.nonConst(sc, TU64, 0); l != "" && !g.inIdx && !g.inKey {
+			w := []string{"uint32", "byte", "uint8"}[g.pick("narrowty", 3)]
+			bits := map[string]uint{"uint32": 32, "byte": 8, "uint8": 8}[w]
+			k := uint64(1+g.pick("narrowk", 3)) << bits
+			d := uint64(g.pick("narrowd", 3)) // 0: equal after truncation, else ordered the other way round
+			op := []string{"==", "!=", "<", ">", "<=", ">="}[g.pick("narrowop", 6)]
+			g.label("comparison-of-narrowing-conversions")
+			// (l | k) has a bit above the width set, (l & ^k) + d has it clear
+			return fmt.Sprintf("%s(%s | %d) %s %s((%s & %d) + %d)", w, paren(l), k, op, w, paren(l), ^k, d)
+		}
 	case 8: // guarded slice access: the right operand is only defined when the left one holds
 		ss := g.varsOf(sc, func(v *Var) bool { return v.T.K == KSlice && v.T.Elem.IsInt() })
 		if len(ss) > 0 && !g.inIdx && !g.inKey {
